@@ -109,6 +109,13 @@ def build_net(m):
             elif 'norm' not in name:
                 p.copy_(torch.randn(p.shape, generator=g) * 0.3)
         net.dec_out_proj.weight.mul_(4.0)
+        ag = float(m.get('attn_gain', 1.0))
+        if ag != 1.0:
+            # very peaked attention (scaled scores far beyond +-88): legal, and numerically harmless
+            # for a max-subtracting softmax
+            for layer in net.trans_decoder.layers:
+                for att in (layer.self_attn, layer.multihead_attn):
+                    att.in_proj_weight[:2 * m['dim']].mul_(ag)
     net.eval()
     return net
 
@@ -180,6 +187,8 @@ def gen_plan(seed, tier, index):
          'enc_layers': 1, 'dec_layers': r.choice([1, 2, 2, 3]), 'nsym': r.choice([3, 5, 8]), 'H': 8,
          'gain': r.choice([1.0, 1.5, 2.0]) if dim > 8 else r.choice([1.0, 1.5]),
          'eos_q': r.choice([0.6, 0.8, 0.9, 0.95, 0.98])}
+    if r.random() < 0.08:
+        m['attn_gain'] = r.choice([12.0, 30.0])
     nb = r.randint(2, 8)
     batches = []
     prev = None
@@ -252,12 +261,15 @@ def _viol(res, kind, sig, msg, k):
 
 
 _WORST = [0.0]      # largest (difference / tolerance) seen in the current run, reported in the evidence
+_ILL = [False]      # peaked-attention model: score equality is ill-conditioned and not asserted (finiteness is)
 
 
 def tol_for(logits):
     torch = _torch()
     fin = logits[torch.isfinite(logits)]
     scale = float(fin.abs().max()) if fin.numel() else 0.0
+    if _ILL[0]:
+        return float('inf')
     return max(TOL, REL * scale)
 
 
@@ -267,7 +279,7 @@ def _maxdiff(a, b, tol=None):
         return float('inf')
     d = (a - b).abs().max()
     d = float('inf') if not bool(torch.isfinite(d)) else float(d)
-    if tol is not None and d != float('inf'):
+    if tol is not None and d != float('inf') and tol != float('inf'):
         _WORST[0] = max(_WORST[0], d / tol)
     return d
 
@@ -297,8 +309,8 @@ def check_batch(res, ctx, k, b, x, outs, logits):
     # may legitimately flip a symbol under float noise (lines are independent, so only that line is waived)
     top2 = logits.topk(2, dim=-1).values
     line_margin = (top2[..., 0] - top2[..., 1]).min(dim=1).values
-    tie = [bool(line_margin[n] < TIE) for n in range(logits.shape[0])]
-    if any(tie):
+    tie = [bool(line_margin[n] < TIE) or _ILL[0] for n in range(logits.shape[0])]
+    if any(tie) and not _ILL[0]:
         res.probe('near_tie_waiver', sum(tie))
     tol = tol_for(logits)
     # --- outputs free of boundary / ignore symbols, consistent with the scores
@@ -499,6 +511,9 @@ def execute(plan):
     m = plan['model']
     stats = {}
     _WORST[0] = 0.0
+    _ILL[0] = float(m.get('attn_gain', 1.0)) != 1.0
+    if _ILL[0]:
+        res.probe('peaked_attention_model')
     real_torch = transformer.torch._real if isinstance(transformer.torch, TorchProxy) else transformer.torch
     try:
         with quiet(), torch.no_grad():
